@@ -11,8 +11,30 @@ PROP = 'C03'
 
 def item(it):
   cover.start()
+  if it['name'] == '__svsem_selftest__': return oracle_validation(it)
   r = check_design(it['name'], it['backend'], it['K'])
   return r
+
+
+def oracle_validation(it):
+  """svsem is the trusted oracle: validate it on every run (hand-derived IEEE-1800 vectors + the repo's TV vectors)"""
+  import warnings; warnings.filterwarnings('ignore')
+  from vlib.pathcheck import Result
+  from svsem import selftest
+  import pymtl3.passes.testcases.test_cases as TC
+  res = Result('svsem oracle validation')
+  n, bad = selftest.run_vectors()
+  res['replays'] += n
+  for b in bad: res['inconclusive'].append(f"svsem self-test vector fails (oracle bug): {b}")
+  names = sorted(x for x in dir(TC) if x.startswith('Case') and hasattr(getattr(TC, x), 'DUT') and hasattr(getattr(TC, x), 'TV'))
+  ok = 0
+  for nme in names[it['part']::it['parts']]:
+    r = selftest.run_tv_case(nme, 'v')
+    if r[0] == 'ok': ok += 1; res['replays'] += r[1]
+    elif r[0] == 'fail': res['inconclusive'].append(f"svsem does not reproduce the repository's recorded outputs: {r[1]}")
+  res['states'] = 1; res['transitions'] = 1
+  res['note'] = f"{n} hand vectors, {ok} Case* designs with recorded vectors reproduced"
+  return res.r
 
 
 def corpus(tier):
@@ -31,6 +53,7 @@ def main(prop=PROP, backend=BACKEND):
   names, gen = corpus(tier)
   K = 3 if tier == 'quick' else 6
   items = [dict(name='ex:ProcRTL', backend=backend, K=2 if tier == 'quick' else 4)]
+  items += [dict(name='__svsem_selftest__', backend='v', K=0, part=i, parts=4) for i in range(4)]
   items += [dict(name=n, backend=backend, K=K) for n in names]
   items += [dict(name=n, backend=backend, K=1) for n in gen]
   verdicts = {}
